@@ -388,6 +388,18 @@ def op_asts(draw, depth=2, kinds=None):
 
 
 @st.composite
+def ext_ops(draw, depth=2):
+    """Definition-backed extension ops (see ref.as_custom)."""
+    c = dict(draw(op_asts(depth, kinds=["Custom"])), k="ExtOp")
+    c["via"] = draw(st.sampled_from(["direct", "direct", "instantiate", "mono"]))
+    c["inst"] = draw(st.booleans())
+    if draw(st.integers(0, 2)) == 0 and c["reqs"]:
+        # the defining extension already among the requirements (at any position)
+        c["ext"] = draw(st.sampled_from(c["reqs"]))
+    return c
+
+
+@st.composite
 def rowpoly_calls(draw, depth=2):
     """Call / LoadFunc over a row-polymorphic signature whose instantiation has a
     different arity than the polymorphic body."""
@@ -425,10 +437,13 @@ def typedefs(draw, force_copy=False):
     indices name TypeTypeParams (the documented domain)."""
     ps = draw(st.lists(params(1), max_size=3))
     tidx = [i for i, p in enumerate(ps) if p["k"] == "type"]
+    if not force_copy and draw(st.integers(0, 11)) == 0:
+        # a from-params bound naming no parameter: the join of nothing is Copyable
+        return {"ext": draw(EXT_NAMES), "name": draw(NAMES), "params": ps, "bound": {"b": "F", "idx": []}, "desc": draw(DESCS)}
     if force_copy or not tidx or draw(st.integers(0, 2)) == 0:
         b = {"b": "E", "v": "C" if force_copy else draw(st.sampled_from(BOUNDS))}
     else:
-        idx = draw(st.lists(st.sampled_from(tidx), min_size=1, max_size=3))
+        idx = draw(st.lists(st.sampled_from(tidx), min_size=0 if draw(st.integers(0, 5)) == 0 else 1, max_size=3))
         b = {"b": "F", "idx": idx}
     return {"ext": draw(EXT_NAMES), "name": draw(NAMES), "params": ps, "bound": b, "desc": draw(DESCS)}
 
